@@ -32,6 +32,7 @@ macro_rules! dispatch {
             "C18" => $f(&props::c18::C18, $($args),*),
             "C03" => $f(&props::c03::C03, $($args),*),
             "C19" => $f(&props::c19::C19, $($args),*),
+            "C20" => $f(&props::c20::C20, $($args),*),
             other => {
                 eprintln!("unknown property {}", other);
                 2
